@@ -623,10 +623,14 @@ def fill : List Spec → List Item → Except Err (List Item)
 def ctorCheck (cls : Cls) (items : List Item) : Except Err Unit :=
   match cls with
   | .mapping =>
-      -- `if isinstance(template, MappingPulseTemplate) and template.identifier is None:` the mappings are
-      -- composed and the inner template is adopted; expression composition is outside this model
+      -- `if isinstance(template, MappingPulseTemplate) and template.identifier is None and not
+      -- template.parameter_constraints:` the mappings are composed and the inner template is adopted; expression
+      -- composition is outside this model. An anonymous inner mapping that carries constraints is kept as it is.
       match findItem "template" items with
-      | some (.child _ (.node .mapping none _)) => throw .unmodelled
+      | some (.child _ (.node .mapping none inner)) =>
+          match findItem "parameter_constraints" inner with
+          | some (.data _ (.arr (_ :: _))) => pure ()
+          | _ => throw .unmodelled
       | _ => pure ()
   | .arith =>
       -- exactly one operand is a pulse template (`TypeError` otherwise, wrapped into `ValueError`)
